@@ -319,6 +319,20 @@ Fixpoint op_depth (o : op) : nat :=
   | OSub c f => S (fold_right Nat.max O (map (fun m => fold_right Nat.max O (map op_depth m)) c))
   end.
 
+(* the domain of the key/qubit-set theorems: every repetition count in the nest is a non-zero integer (a
+   zero-repetition operation reports the keys of its body although its unrolled form is empty) and there are as
+   many repetition ids as repetitions (enforced by the constructor) *)
+Definition ids_ok (f : subf) : bool :=
+  match reps f with
+  | RInt r => negb (r =? 0) && match ids f with Some l => Nat.eqb (List.length l) (Z.abs_nat r) | None => true end
+  | RSym _ _ => false
+  end.
+Fixpoint op_ok (o : op) : bool :=
+  match o with
+  | OLeaf _ => true
+  | OSub c f => ids_ok f && forallb (fun m => forallb op_ok m) c
+  end.
+
 (* ---- flat view of an unrolled circuit ---- *)
 Fixpoint circ_leaves (c : circ) : list leaf :=
   match c with
@@ -385,3 +399,17 @@ Definition moment_eqb (a b : list op) : bool := list_eqb' op_eqb a b.
 Definition circ_eqb (a b : circ) : bool := list_eqb' moment_eqb a b.
 Definition res_eqb {A} (e : A -> A -> bool) (a b : res A) : bool :=
   match a, b with Ok x, Ok y => e x y | ErrValue, ErrValue => true | ErrFuel, ErrFuel => true | _, _ => false end.
+
+(* ---- repeat_until: CircuitOperation._act_on_ runs the mapped single loop, then tests the mapped condition on the
+   classical data, and stops at the first iteration after which it holds (always at least one iteration).
+   `body` is the effect of one pass of the loop on the simulation state, `cond` the resolved condition. ---- *)
+Section Until.
+  Variable St : Type.
+  Variable body : St -> St.
+  Variable cond : St -> bool.
+  Fixpoint act_until (fuel : nat) (s : St) : res St :=
+    match fuel with
+    | O => ErrFuel
+    | S n => let s' := body s in if cond s' then Ok s' else act_until n s'
+    end.
+End Until.
